@@ -15,6 +15,7 @@
 #include <inttypes.h>
 #include <setjmp.h>
 #include <signal.h>
+#include <sys/time.h>
 #include <stdarg.h>
 #include <stddef.h>
 #include <stdbool.h>
@@ -434,8 +435,19 @@ static volatile long vh_fault_off = 0;
 static void *volatile vh_fault_addr = NULL; /* faulting address of the last SIGSEGV / SIGBUS */
 static char vh_fault_msg[256];
 
+/* watchdog (opt-in, vh_watchdog(period)): a periodic SIGALRM; when no sandboxed call has begun or ended between two
+ * ticks while one is in flight, that call is treated as hung (fault kind 4). Costs nothing per call. */
+static volatile uint64_t vh_progress = 0, vh_progress_seen = 0;
+static volatile int vh_watchdog_on = 0;
 static void vh_sig(int sig, siginfo_t *si, void *uc) {
     (void)uc;
+    if (sig == SIGALRM && vh_watchdog_on) {
+        if (!vh_armed || vh_progress != vh_progress_seen) {
+            vh_progress_seen = vh_progress;
+            return; /* progress since the last tick (or nothing in flight) */
+        }
+        snprintf(vh_fault_msg, sizeof vh_fault_msg, "no progress for a whole watchdog period");
+    }
     if (!vh_armed) {
         /* fault outside a sandboxed call: die loudly with case info */
         char b[256];
@@ -502,8 +514,16 @@ void __assert_fail(const char *assertion, const char *file, unsigned int line,
     _exit(71);
 }
 /* usage: if (SB_ENTER()) { call library; SB_LEAVE(); } else { fault info in vh_fault_* } */
-#define SB_ENTER() (vh_fault_kind = 0, vh_fault_msg[0] = 0, sigsetjmp(vh_jmp, 1) == 0 ? (vh_armed = 1, 1) : 0)
-#define SB_LEAVE() (vh_armed = 0)
+#define SB_ENTER() (vh_fault_kind = 0, vh_fault_msg[0] = 0, vh_progress++, sigsetjmp(vh_jmp, 1) == 0 ? (vh_armed = 1, 1) : 0)
+#define SB_LEAVE() (vh_armed = 0, vh_progress++)
+static void vh_watchdog(int period_s) {
+    struct itimerval it;
+    memset(&it, 0, sizeof it);
+    it.it_interval.tv_sec = period_s;
+    it.it_value.tv_sec = period_s;
+    vh_watchdog_on = 1;
+    setitimer(ITIMER_REAL, &it, NULL);
+}
 
 static const char *vh_fault_name(void) {
     switch (vh_fault_kind) {
